@@ -69,6 +69,9 @@ def no_projections(cx, b, tparam, key):
 def run(cx):
     # crate-wide: a position enters a dot product only inside a difference of projections (or as the plane offset)
     E.posdot(cx, floor=5)
+    # orientation of a point list is decided by a vote around its convex hull; it must not depend on where the hull list starts (rule shared with C15)
+    from rules.C15 import order_vote_rule
+    order_vote_rule(cx)
     SP = 'common::surface_point::SurfacePoint'
     b = cx.fn(f'{SP}::transformed')
     if b:
